@@ -137,9 +137,13 @@ func (s *histSlot) fill(c *histContent) {
 	}
 	lines := sdf.VertexToLine(s.buf, true)
 	if c.Perm != nil {
-		p := make([]*sdf.Line2, len(lines))
-		for i, j := range c.Perm {
-			p[i] = lines[j]
+		// (should the library return another number of segments than the polygon has edges, the shapes built
+		// from them are reported by the oracles; the harness must not crash on it)
+		p := make([]*sdf.Line2, 0, len(lines))
+		for _, j := range c.Perm {
+			if j < len(lines) {
+				p = append(p, lines[j])
+			}
 		}
 		lines = p
 	}
